@@ -1,5 +1,5 @@
 ------------------------------- MODULE MQueue -------------------------------
-(* Layer P (extension "queue", host C11): life cycle of core/queue.Queue.
+(* Layer P (extension "mqueue", host C11): life cycle of core/queue.Queue.
 
      "A Queue is a message queue."  NewQueue(producerFactory, consumerFactory); SetNumProducer / SetNumConsumer;
      AddListener(Listener{OnPause, OnResume}); Start() "starts q" and blocks; Stop() "stops q";
@@ -42,6 +42,11 @@
                      (resume) tells every listener, in AddListener order, before it returns; no other call tells anyone
      SameOrder       every consumer sees every broadcast at most once, and all consumers see the broadcasts
                      in one common order (the event lock serialises Broadcast)
+     Progress        (not a guard: the drivers wait for these under a generous watchdog and record an event "stuck",
+                     for which there is no action, if one does not come)  while the queue has not been stopped
+                     every producer is asked again after each Produce call, however that call ended ("avoid panic
+                     quit the producer, log it and continue"); every broadcast reaches every consumer; once Stop
+                     was called and every callback has returned, Start returns
    Premises of the harness (also guards, so a driver that breaks them is rejected, not the library):
      Start and Stop are called once; Broadcast is called while the queue runs, all consumers exist and Stop has not
      been called, and Stop is only called when every broadcast has reached every consumer (a Broadcast that
